@@ -272,7 +272,7 @@ func (c countingItem) AppendTo(dst []byte) []byte {
 func (c countingItem) ToBytes() []byte { c.encodes.Add(1); return c.Item.ToBytes() }
 
 func TestC12Immutable(t *testing.T) {
-	ev.Rule("items by provenance {constructed from retained caller slices (typed and untyped, nested lists built from a retained []Item), Decode of a caller buffer} and messages by provenance {NewDataMessage over such an item, DecodeHSMSMessage / DecodeHSMSPayload of a caller buffer, re-stamped and derived copies}; plan: 8 goroutines snapshot every public observation at once (first use of all lazy paths), then the caller scribbles over every retained input and over every slice returned by ToBinary/ToBoolean/ToInt/ToUint/ToFloat/ToList/ToBytes/AppendTo (incl. spare capacity)/AppendBinaryTo/AppendBodyTo, re-snapshotting after each; oracle: all snapshots equal, no race report (binary built with -race), Item() returns one instance to every holder and copy, a counting Item wrapper is serialized at most once per message; non-trivial = a scribbled slice belongs to a leaf with >= 2 elements or to a list")
+	ev.Rule("items by provenance {constructed from retained caller slices (typed and untyped, nested lists built from a retained []Item), Decode of a caller buffer} and messages by provenance {NewDataMessage over such an item, DecodeHSMSMessage / DecodeHSMSPayload / DataMessageCodec.UnmarshalBinary of a caller buffer, re-stamped and derived copies}; plan: 8 goroutines snapshot every public observation at once (first use of all lazy paths), then the caller scribbles over every retained input and over every slice returned by ToBinary/ToBoolean/ToInt/ToUint/ToFloat/ToList/ToBytes/AppendTo (incl. spare capacity)/AppendBinaryTo/AppendBodyTo, re-snapshotting after each; oracle: all snapshots equal, no race report (binary built with -race), Item() returns one instance to every holder and copy, a counting Item wrapper is serialized at most once per message; non-trivial = a scribbled slice belongs to a leaf with >= 2 elements or to a list")
 	vt.Check(t, 1600, 24000, func(rt *rapid.T) {
 		v := gen.Value(rt, gen.Opts{MaxDepth: 5, Budget: 1200, NoBigCounts: true})
 		var scribbles []func()
@@ -371,7 +371,22 @@ func TestC12Immutable(t *testing.T) {
 		frame := e37.DataFrame(0x4321, stream, function, wbit, 0x0a0b0c0d, e5.Encode(v)).Bytes()
 		wire := append([]byte(nil), frame...)
 		var dm *hsms.DataMessage
-		switch rapid.IntRange(0, 1).Draw(rt, "decodeEntry") {
+		switch rapid.IntRange(0, 2).Draw(rt, "decodeEntry") {
+		case 2:
+			// the encoding.BinaryUnmarshaler wrapper (storage layers): documented to behave exactly like
+			// assigning the result of DecodeHSMSMessage
+			codec := &hsms.DataMessageCodec{}
+			if uerr := codec.UnmarshalBinary(wire); uerr != nil {
+				rt.Fatalf("VERIF-INFRA: UnmarshalBinary: %v", uerr)
+			}
+			dm = codec.Message
+			out, merr := codec.MarshalBinary()
+			if merr != nil || !bytes.Equal(out, frame) {
+				rt.Fatalf("C12 violated: DataMessageCodec.MarshalBinary after UnmarshalBinary does not return the frame (%v)", merr)
+			}
+			for i := range out {
+				out[i] ^= 0xa5 // the caller owns what MarshalBinary returned
+			}
 		case 0:
 			d, derr := hsms.DecodeHSMSMessage(wire)
 			if derr != nil {
